@@ -894,6 +894,19 @@ def _value_tomof(
     return mof_str, line_pos
 
 
+def _real_to_wbem_uri(value):
+    """
+    Return the string for a real-typed key value in a WBEM URI, as a DSP0004
+    realValue (which requires a decimal point) that from_wbem_uri() can parse.
+    """
+    str_value = repr(float(value))  # Not the repr() of the CIM real types
+    if '.' not in str_value and 'inf' not in str_value and 'nan' not in str_value:
+        # repr() omits the fraction for large or small exponents (e.g. 1e+16)
+        mantissa, sep, exponent = str_value.partition('e')
+        str_value = mantissa + '.0' + sep + exponent
+    return str_value
+
+
 def _cim_keybinding(key, value):
     """
     Return a keybinding value, from dict item input (key+value).
@@ -2231,7 +2244,7 @@ class CIMInstanceName(_CIMComparisonMixin, SlottedPickleMixin):
                 # which is the precision needed to round-trip double precision
                 # IEE-754 floating point numbers between decimal and binary
                 # without loss.
-                ret.append(repr(value))
+                ret.append(_real_to_wbem_uri(value))
             elif isinstance(value, (CIMInt, int)):
                 # intNN
                 ret.append(str(value))
